@@ -63,6 +63,7 @@ def check_history(case, ctx):
         with sut(detector=name):
             np.random.seed(base + i)
             det.update(present(X, container, ncols))
+        probe = float(np.random.random())  # generator position after the call = bootstrap draws consumed
         tb = det.total_batches
         obs_drift = det.drift_state == "drift"
         if det.drift_state not in (None, "drift"):
@@ -70,9 +71,13 @@ def check_history(case, ctx):
 
         def stepfn(m, ch):
             np.random.seed(base + i)
-            return m.step(X, ch)
+            o = m.step(X, ch)
+            o["probe"] = float(np.random.random())
+            return o
 
         verdict, outs = fk.advance(stepfn, lambda o: o["drift"] == obs_drift)
+        if all(o["probe"] != probe for o in outs):
+            fail("hdm-random-draws", i, "the update did not consume the documented random numbers (subsets resamples of the reference on the epoch's second batch when detect_batch is 1 or 2, none otherwise)")
         o = outs[0]
         # numbers do not depend on the forked decision of this step: check them first
         if tb != o["total"]:
